@@ -301,6 +301,27 @@ fn run_generator(sdl: &str, dir: &Path) -> String {
     }
 }
 
+/// The parameter bindings the generator emitted: every `let <ident>: <type> = parameters.get(…)…;`
+/// statement of edges.rs (edges of vertex types) and adapter_impl.rs (entry points), with all
+/// whitespace removed, sorted, joined by `;;`. `-` when there is none.
+fn emitted_parameter_statements(adapter_dir: &Path) -> String {
+    let mut found: Vec<String> = vec![];
+    for file in ["edges.rs", "adapter_impl.rs"] {
+        let text = std::fs::read_to_string(adapter_dir.join(file)).unwrap_or_default();
+        let flat: String = text.chars().filter(|c| !c.is_whitespace()).collect();
+        let mut rest = flat.as_str();
+        while let Some(eq) = rest.find("=parameters.get(") {
+            // walk back to the `let` that starts this statement
+            let Some(start) = rest[..eq].rfind("let") else { break };
+            let Some(end) = rest[eq..].find(';') else { break };
+            found.push(rest[start..eq + end].to_string());
+            rest = &rest[eq + end + 1..];
+        }
+    }
+    found.sort();
+    if found.is_empty() { "-".to_string() } else { found.join(";;") }
+}
+
 fn first_rustc_error(stderr: &str) -> String {
     for line in stderr.lines() {
         let l = line.trim_start();
@@ -977,6 +998,21 @@ impl Prop for C26 {
             ("stub-compile", [s]) => {
                 let desc = sexp_to_schema(s)?;
                 Some(compile_stub(&desc))
+            }
+            ("stub-params", [s]) => {
+                let desc = sexp_to_schema(s)?;
+                let sdl = render_sdl(&desc);
+                let dir = scratch_root().join(format!("params-{:016x}", fnv(&sdl)));
+                let _ = std::fs::remove_dir_all(&dir);
+                std::fs::create_dir_all(&dir).ok()?;
+                let outcome = run_generator(&sdl, &dir);
+                let answer = if outcome == "ok" {
+                    emitted_parameter_statements(&dir.join("src").join("adapter"))
+                } else {
+                    format!("not-generated:{outcome}")
+                };
+                let _ = std::fs::remove_dir_all(&dir);
+                Some(answer)
             }
             _ => None,
         }
